@@ -308,6 +308,8 @@ def run(case):
             res["trans"] = 1
         return res
     act = case["then"]
+    if torch.is_tensor(val):  # operator @ tensor is a plain Tensor: there is no operator to rewrite further
+        return result(OOD, feat=feat, keys=[key], trans=1, nontrivial=False)
     pd = pdx and pdy and op in ("+", "*")
     feat2 = dict(feat, act=act[0], arg=act[1] if len(act) > 1 else None, first=res["feat"].get("result"))
     impl, twin, needs_pd = apply_un(act, val, ref, pd)
